@@ -18,6 +18,11 @@ HOSTS = {
     "msup": (lambda v: f'<math><msup{v}><mn arg="a">13.9</mn><mn arg="b">14.6</mn></msup></math>', {"a": "13.9", "b": "14.6"}),
     "mi":   (lambda v: f'<math><mrow><mi{v}>x</mi><mo>=</mo><mn>15.2</mn></mrow></math>', {}),
 }
+# a host with four arguments, used for the chained applications only
+HOST4 = (lambda v: f'<math><mrow{v}><mn arg="a">11.3</mn><mo>+</mo><mn arg="b">12.7</mn><mo>+</mo><mn arg="c">16.8</mn><mo>+</mo><mn arg="d">17.4</mn></mrow></math>',
+         {"a": "11.3", "b": "12.7", "c": "16.8", "d": "17.4"})
+CHAINS = ["frob($a)($b)", "frob($a)($b)($c)", "frob($a)($b)($c)($d)", "frob($a,$b)($c)", "frob($a)($b,$c)", "frob($a)($b,$c)($d)", "frob($a,$b)($c,$d)", "frob($a)(7)($b)(8)",
+          "frob($a)($b)(9)", "frob(7)(8)(9)", "frob($d)($c)($b)($a)", "frob($a,$b,$c)($d)", "frob($a)($b,$c,$d)", "frob($a)($b)($c)($d)(7)(8)"]
 
 
 def attr(s):
@@ -143,6 +148,27 @@ def classify(s, args):
         return "illegal"                                       # dangling reference
     # core-legal: NAME ( arg (, arg)* ) with distinct resolvable references or numbers as arguments
     kinds = [t[0] for t in toks]
+    # chained applications NAME(args)(args)...: every group must be a well-formed argument list of references / numbers
+    if len(toks) >= 7 and kinds[0] == "name" and toks[0][1] == NAME and len(set(refs)) == len(refs) and ") (" in " ".join(kinds):
+        groups, cur, depth, okc = [], [], 0, True
+        for t in toks[1:]:
+            if t[0] == "(":
+                depth += 1
+                if depth > 1:
+                    okc = False
+                cur = []
+            elif t[0] == ")":
+                depth -= 1
+                groups.append(cur)
+            elif depth == 1:
+                cur.append(t)
+            else:
+                okc = False
+        for g in groups:
+            if len(g) % 2 != 1 or any((j % 2 == 0 and t[0] not in ("ref", "num")) or (j % 2 == 1 and t[0] != ",") for j, t in enumerate(g)):
+                okc = False
+        if okc and depth == 0 and len(groups) >= 2:
+            return "core"
     if (len(toks) >= 4 and kinds[0] == "name" and toks[0][1] == NAME and kinds[1] == "(" and kinds[-1] == ")"
             and len(set(refs)) == len(refs)):
         inner = toks[2:-1]
@@ -195,7 +221,8 @@ def check_case(host, s, res, ref, cls, literals):
     v = []
     rs, rb = ref
     def add(kind, what):
-        v.append((f"C19|{host}|{cls}|{kind}", f"intent={short(s, 80)!r} on <{host}> ({cls}): {what}", {"host": host, "intent": s}))
+        # (the well-formed class is small and each of its strings is a shape of its own: the key carries the token-kind signature)
+        v.append((f"C19|{host}|{cls}|{kind}" + (f"|{shape(s)}" if cls == "core" else ""), f"intent={short(s, 80)!r} on <{host}> ({cls}): {what}", {"host": host, "intent": s}))
     for i, r in enumerate(res):
         if is_panic(r):
             site = r[1] if r[0] == "p" else r[0]
@@ -244,7 +271,7 @@ def check_case(host, s, res, ref, cls, literals):
 def work(item):
     host, strs = item
     mc = mcx.worker_mc()
-    mk, literals = HOSTS[host]
+    mk, literals = HOSTS[host] if host != "mrow4" else HOST4
     setup = [["rules_dir", mcx.RULES], ["pref", "TTS", "none"], ["pref", "Language", "en"], ["pref", "BrailleCode", "Nemeth"]]
     cases = [[["pref", "IntentErrorRecovery", "IgnoreIntent"], ["mathml", mk("")], ["speech"], ["braille", ""]]]
     cases += [case_ops(mk(attr(s))) for s in strs]
@@ -267,7 +294,7 @@ def work_fresh(item):
     """speech, speech, braille in a continuing session == the same three calls in a fresh session"""
     host, strs = item
     mc = mcx.worker_mc()
-    mk, _ = HOSTS[host]
+    mk, _ = HOSTS[host] if host != "mrow4" else HOST4
     setup = [["rules_dir", mcx.RULES], ["pref", "TTS", "none"], ["pref", "Language", "en"], ["pref", "BrailleCode", "Nemeth"]]
     cases = [[["mathml", mk(attr(s))], ["speech"], ["speech"], ["braille", ""]] for s in strs]
     _, cont = mc.run_cases(setup, cases)
@@ -323,7 +350,7 @@ def main(tier):
     sets.append(NESTED)
     allstr = sorted(set(s for st in sets for s in st), key=lambda x: (len(x), x))
     run.count("distinct_strings", len(allstr))
-    jobs = []
+    jobs = [("mrow4", list(CHAINS))]
     for host in HOSTS:
         for i in range(0, len(allstr), 250):
             jobs.append((host, allstr[i:i + 250]))
